@@ -31,7 +31,9 @@ def features_of(node: ast.AST) -> Set[str]:
         elif isinstance(n, ast.Call):
             f = n.func
             name = f.id if isinstance(f, ast.Name) else f.attr if isinstance(f, ast.Attribute) else None
-            if name in ("reduce", "iconcat"):
+            flatten = name == "reduce" and len(n.args) == 3 and isinstance(n.args[2], ast.List) and not n.args[2].elts and \
+                (ast.unparse(n.args[0]).split(".")[-1] in ("iconcat", "concat", "add"))
+            if name == "reduce" and not flatten:
                 out.add("reduce")
         elif isinstance(n, ast.Subscript) and isinstance(n.value, ast.Dict) and not isinstance(n.slice, ast.Constant):
             out.add("dict-dispatch")
